@@ -10,6 +10,11 @@ import (
 // obligation per sink.  exempt maps "funcKey: expr" to a reason; exempted
 // sinks are recorded as discharged with the reason (each must match a sink).
 func boundsRule(c *Ctx, m *Module, rule string, keys []string, sums map[string]calleeSummary, exempt map[string]string) int {
+	return boundsRuleX(c, m, rule, keys, sums, exempt, -1)
+}
+
+// boundsRuleX additionally proves make() sizes when allocMax >= 0.
+func boundsRuleX(c *Ctx, m *Module, rule string, keys []string, sums map[string]calleeSummary, exempt map[string]string, allocMax int64) int {
 	total := 0
 	usedExempt := map[string]bool{}
 	for _, k := range keys {
@@ -28,7 +33,11 @@ func boundsRule(c *Ctx, m *Module, rule string, keys []string, sums map[string]c
 		})
 		seen := map[string]int{}
 		for i, body := range bodies {
-			for _, s := range BoundsCheck(f, body, graphs[i], sums, nil) {
+			sinks := BoundsCheck(f, body, graphs[i], sums, nil)
+			if allocMax >= 0 {
+				sinks = append(sinks, AllocCheck(f, body, graphs[i], sums, allocMax)...)
+			}
+			for _, s := range sinks {
 				cons := k + ": " + s.Desc
 				seen[cons]++
 				if seen[cons] > 1 {
